@@ -12,6 +12,7 @@ package main
 import (
 	"fmt"
 	"strings"
+	"time"
 
 	"github.com/prometheus/client_golang/prometheus"
 	"github.com/relex/gotils/logger"
@@ -173,6 +174,9 @@ func c09RunX(env *c09Env, c *Case) (out string, fails []Fail) {
 	base0 := p.read()
 	prev := base0
 	table := append([][]byte{c09Big(c)}, msgs...)
+	if c.Kind == 4 {
+		return c09RunXEnd(env, p, opt, base0, table, idx, labelled)
+	}
 	var outs []string
 	var sumPass, sumDrop, nPass, nDrop uint64
 	for i, k := range idx {
@@ -202,6 +206,78 @@ func c09RunX(env *c09Env, c *Case) (out string, fails []Fail) {
 		}
 	}
 	return "xseq:" + strings.Join(outs, "/"), fails
+}
+
+// c09RunXEnd (kind 4): the same sequence, but the counters are read only once, after the last message (no
+// UpdateMetrics in between: the unwritten values accumulate over the whole sequence). Oracle: the sums.
+func c09RunXEnd(env *c09Env, p *c09Parser, opt *c09XOpt, base0 [6]uint64, table [][]byte, idx []int64, labelled func() string) (out string, fails []Fail) {
+	stamp := time.Unix(1500000000, 12345)
+	var outs []string
+	var want [4]uint64 // passed, passed bytes, dropped, dropped bytes as the returned records / nils say
+	where := fmt.Sprintf("sequence %v through one composite parser (%d output(s), extractions %s; message table in the case), counters read once at the end: ",
+		idx, opt.outputs, c09XShort(opt.xs))
+	for i, k := range idx {
+		if k < 0 || int(k) >= len(table) {
+			return "badcase", nil
+		}
+		input := table[k]
+		given := append([]byte{}, input...)
+		var record *base.LogRecord
+		panicMsg := ""
+		func() {
+			defer func() {
+				if r := recover(); r != nil {
+					panicMsg = fmt.Sprint(r)
+				}
+			}()
+			record = p.parser.Parse(given, stamp)
+		}()
+		switch {
+		case panicMsg != "":
+			outs = append(outs, "panic")
+			fails = append(fails, Fail{"c09:panic-other", fmt.Sprintf("%smessage %d %s: Parse panics: %s", where, i+1, c09Short(input), panicMsg)})
+		case record == nil:
+			outs = append(outs, "drop")
+			want[2]++
+			want[3] += uint64(len(input))
+		default:
+			var sb strings.Builder
+			sb.WriteString("ok:")
+			for j, loc := range env.locs {
+				v := []byte(loc.Get(record.Fields))
+				if j < 8 {
+					sb.WriteString(c09Hex(v))
+				} else {
+					sb.WriteString(c09Digest(v))
+				}
+				sb.WriteByte(',')
+			}
+			if record.Unescaped {
+				sb.WriteString("1")
+			} else {
+				sb.WriteString("0")
+			}
+			outs = append(outs, sb.String())
+			if record.RawLength != len(input) {
+				fails = append(fails, Fail{"c09:accounting", fmt.Sprintf("%smessage %d %s: RawLength %d for an input of %d bytes", where, i+1, c09Short(input), record.RawLength, len(input))})
+			}
+			want[0]++
+			want[1] += uint64(len(input))
+			for o := 0; o < opt.outputs; o++ {
+				opt.alloc.Release(record)
+			}
+		}
+	}
+	fin := p.read()
+	var d [6]uint64
+	for i := range d {
+		d[i] = fin[i] - base0[i]
+	}
+	if [4]uint64{d[0], d[1], d[2], d[3]} != want && len(fails) == 0 {
+		fails = append(fails, Fail{"c09:accounting", fmt.Sprintf("%scounters passed=%d/%d bytes dropped=%d/%d bytes, but %d records of %d bytes were returned and %d messages of %d bytes refused",
+			where, d[0], d[1], d[2], d[3], want[0], want[1], want[2], want[3])})
+	}
+	return fmt.Sprintf("xend:%s;%d,%d,%d,%d,%d,%d;%s", strings.Join(outs, "/"), d[0], d[1], d[2], d[3], d[4], d[5], labelled()), fails
 }
 
 func c09XShort(xs []c09X) string {
@@ -256,6 +332,11 @@ func c09GenX(g *Gen) {
 		g.Count(cls)
 		g.Count(fmt.Sprintf("composite-outputs-%d", outputs))
 		g.Case(3, table, z)
+		if len(msgs) > 1 && cls != "composite-prod" {
+			// the same sequence with the counters read once at the end (no UpdateMetrics in between)
+			g.Count(cls + "-read-at-end")
+			g.Case(4, table, z)
+		}
 	}
 	scfg := c09Small[0]
 	line := func(pri int, app, pid, msg string) []byte {
